@@ -43,7 +43,7 @@ def run(ctx):
     res2 = verify.FunctionResult('fsm.')
     infos = []
     for q in ('dulprovider.DULServiceProvider._process_incoming', 'dulprovider.DULServiceProvider._check_network',
-              'dulprovider.DULServiceProvider._check_incoming_pdu', 'dulprovider.DULServiceProvider._close',
+              'dulprovider.DULServiceProvider._check_incoming_pdu',
               'fsm.StateMachine.dt_2', 'fsm.StateMachine.ar_6', 'pdu.AAssociatePDUBase.decode',
               'pdu.AAssociateRjPDU.decode', 'pdu.PDataTfPDU.decode', 'pdu.AReleasePDUBase.decode',
               'pdu.AAbortPDU.decode', 'pdu.UserInformationItem.decode', 'pdu.UserInformationItem.sub_items',
